@@ -132,9 +132,26 @@ C02_ALSO = ['server.Server._handle_eio_message', 'async_server.AsyncServer._hand
             'server.Server._send_packet', 'async_server.AsyncServer._send_packet']
 
 
+# C05 / C09 say "the responsible handler is invoked": which handler that is, and with which arguments, is C13's resolution
+ALSO = {
+    'C02': C02_ALSO,
+    'C05': ['base_server.BaseServer._get_event_handler', 'base_server.BaseServer._get_namespace_handler',
+            'server.Server._trigger_event', 'async_server.AsyncServer._trigger_event'],
+    'C09': ['base_client.BaseClient._get_event_handler', 'base_client.BaseClient._get_namespace_handler',
+            'client.Client._trigger_event', 'async_client.AsyncClient._trigger_event'],
+    # functions the property's own anchors name, whose contract was written for another property
+    'C07': ['pubsub_manager.PubSubManager._thread', 'async_pubsub_manager.AsyncPubSubManager._thread'],
+    'C08': ['client.Client._handle_reconnect', 'async_client.AsyncClient._handle_reconnect'],
+    'C11': ['server.Server._handle_eio_message', 'async_server.AsyncServer._handle_eio_message'],
+    'C12': ['base_manager.BaseManager.is_connected', 'base_manager.BaseManager.eio_sid_from_sid'],
+    'C20': ['base_manager.BaseManager.basic_disconnect', 'base_manager.BaseManager.can_disconnect'],
+}
+
+
 def tag(reg):
-    """the contracts C02 composes, beyond those that already carry the tag"""
-    for t in C02_ALSO:
-        k = reg.by_target.get(t)
-        if k is not None and 'C02' not in k.props:
-            k.props.append('C02')
+    """the contracts a property composes, beyond those that already carry its tag"""
+    for prop, targets in ALSO.items():
+        for t in targets:
+            k = reg.by_target.get(t)
+            if k is not None and prop not in k.props:
+                k.props.append(prop)
